@@ -96,6 +96,7 @@ def printBlock (k : Nat) (op : String) (so : StepOut) : IO Unit := do
   match so.w.panicked with
   | some site => IO.println s!"ev panic-model {toS (esc site)}"
   | none => pure ()
+  for v in invCheck so.w do IO.println s!"ev inv-violated {v}"
   IO.println "endop"
 
 def runFile (path : String) : IO Unit := do
